@@ -453,7 +453,8 @@ def run(ctx):
                      'helper vs general route compared to %g*level (same expression on the same floats); closed-form and '
                      'mirror comparisons to level*(1e-9 + %d*ulp(f)/width)' % (TOL_SAME, K_COND),
                      'a sub-step count whose pre-rounding ratio |drift|/unit is within 1e-9 of an integer is accepted '
-                     'on either side',
+                     'on either side, except when the ratio is an exact integer and df, dt are powers of two (every '
+                     'float formula for it is then exact)',
                      'VERIF_SEED changes only the pre-existing frame content'],
         coverage_extra={'bounds': {'geometries': {g: GEOMS[g] for g in geoms}, 'fchans': FCHANS, 'tchans': tchans_l,
                                    'start_position_channels': POS, 'drift_channels_per_step': drifts,
